@@ -19,7 +19,7 @@ ASSUMPTIONS = [
 REQUIRED = {"eval.post": 1000, "checked_results": 200, "fun_none_runs": 20,
             "history_checked": 50}
 MIN_NONTRIVIAL = {"quick": 20, "thorough": 100}
-PLAN = [("budget", 1200, 16000), ("history", 500, 6000), ("general", 300, 4000)]
+PLAN = [("budget", 1200, 16000), ("history", 500, 6000), ("general", 300, 4000), ("cross", 300, 6000)]
 
 
 def cases(tier, seed):
@@ -35,10 +35,10 @@ def make_spec(case):
     spec = gen.general(rng, con=con, fun_none=0.3, maxfev=(30, 60),
                        opt_allow=("scale", "nb_points", "radius"))
     n = spec["n"]
-    nfix = sum(1 for l, u in zip(spec.get("bounds", {}).get("lb", []),
-                                 spec.get("bounds", {}).get("ub", []))
-               if l == u)
-    nred = max(n - nfix, 1)
+    nred = n
+    if spec.get("bounds"):
+        nred = max(gen.reduced_dim(spec["bounds"]["lb"],
+                                   spec["bounds"]["ub"]), 1)
     o = spec["options"]
     if "nb_points" in o:
         o["nb_points"] = int(rng.integers(nred + 1,
@@ -71,7 +71,10 @@ def make_spec(case):
 
 
 def run_case(case):
-    spec = make_spec(case)
+    if case["fam"] == "cross":
+        spec, _src = e2e.cross_spec(ID, case)
+    else:
+        spec = make_spec(case)
     rec = mrun.run(spec)
     viols, info = oracles.o_c05(rec)
     counts = e2e.base_counts(rec)
